@@ -448,6 +448,18 @@ func genC11(r *Runner) {
 			cases = append(cases, one(l3, 2, "inconclusive-and-timeout-then-crl"))
 		}
 	}
+	// every answer class of the whole OCSP alphabet x what the CRL would say: a final answer stays final (no CRL fetched, not
+	// softened), an inconclusive one falls back — both signing-time modes (the invalidity-date handling depends on it)
+	for _, ob := range ocspAlphabet {
+		for _, kb := range []string{"clean", "lists-cert", "fetch-error"} {
+			for _, stZero := range []bool{false, true} {
+				l := levelSpec{ocspURLs: urlsN(ocspURL, 0, 1), ocspBeh: []string{ob}, crlURLs: urlsN(crlURL, 0, 1), crlBeh: []string{kb}}
+				c := one(l, 2, "every-ocsp-class-then-crl")
+				c.stZero = stZero
+				cases = append(cases, c)
+			}
+		}
+	}
 	// distribution points that are not plain http: they are distribution points all the same (the CRL stage is due, and fails)
 	cases = append(cases, crlSchemeFaultCases([][]string{nil, {"unknown"}, {"http-500"}, {"timeout"}, {"good"}, {"revoked"}})...)
 	// chains of 2..4 certificates, each with its own sources
@@ -555,6 +567,7 @@ func genC12(r *Runner) {
 		c.mode, c.purposeTS, c.deprecatedValidate = "full", false, true
 		cases = append(cases, c)
 	}
+	cases = append(cases, cancelCases(rng)...)
 	runChainCases(r, cases)
 }
 
@@ -651,10 +664,19 @@ func genC06(r *Runner) {
 			cases = append(cases, one(l, 2, "assign-o3k1"))
 		}
 	}
+	cases = append(cases, cancelCases(rng)...)
+	runChainCases(r, cases)
+}
+
+// cancelCases: context cancellation before / during / after the first request: every source then fails, so no certificate
+// naming a source may come out OK or NonRevokable (C06), and each result keeps its documented shape — one entry per
+// responder, all Unknown (C12)
+func cancelCases(rng *rand.Rand) []chainCase {
+	var cases []chainCase
 	// context cancellation before / during / after the first request: every source then fails, so no
 	// certificate naming a source may come out OK or NonRevokable
 	for _, cancel := range []string{"before", "during", "after"} {
-		for no := 0; no <= 2; no++ {
+		for no := 0; no <= 3; no++ {
 			for nk := 0; nk <= 2; nk++ {
 				if no+nk == 0 {
 					continue
@@ -682,5 +704,5 @@ func genC06(r *Runner) {
 			cases = append(cases, c)
 		}
 	}
-	runChainCases(r, cases)
+	return cases
 }
